@@ -21,6 +21,10 @@ claimed = {
          "DESIGN.md §8 C10", TRUST+"I/O faults of write primitives and stdout are excluded; plan is not yet under contract."),
  "C12": ("proof", "For every event list (also hand-merged, reordered, unknown types): every panic-capable instruction of replayEvents/applyTombstone and of the read-side graph functions has a discharged safety obligation (no nil-map write, nil dereference, index out of range), and the replayed graph is well-formed; every comparator feeding list output is proved a strict total order on the sorted items (epics by (created, id): defect repaired, fix: 109c988; tasks by id over distinct ids); list, show, where and prune without --yes are proved to leave the ghost log version and commit counter unchanged and to create no file other than the lock.",
          "DESIGN.md §8 C12", TRUST+"readEvents' scanner loop and located error text, topoSortTasks and the tree renderer are assumed; time bounds are not expressible."),
+ "C18": ("proof", "Ghost file-presence model: getEventsPath is proved (on its body) to choose plans.jsonl if present, else events.jsonl if present, else plans.jsonl; init is proved never to switch an existing store to a different log file and never to remove a file (defect repaired, fix: 18a75a4); withLock creates at most the lock file; a structural census proves that every log primitive in the package receives a path flowing from getEventsPath and that every writer is under contract. The directory search itself (string algebra of filepath) is a BOUNDED stand-in: exhaustive over chains of depth <= 4, all subsets of levels holding .ergo, six spellings of the start (relative start defect repaired, fix: baee177).",
+         "DESIGN.md §8 C18", TRUST+"os.Stat succeeds iff the path exists (faults excluded); filepath.Join distinctness axiom; the bounded part is labelled bounded and never counted as proved."),
+ "C20": ("proof", "The result section is proved to append only for a live, unpruned, non-epic task, with the cleaned path, the captured evidence and the trimmed summary in the event; the replay loop is proved, for every event type and every event list, to prepend a result's fields to the addressed live task and to leave every other task's results untouched (length and elements); the output builder copies them in order. Lexical confinement of the path is a BOUNDED stand-in (137k strings over {./aergo}, length <= 6, plus curated cases, against a component-wise oracle on a real directory tree).",
+         "DESIGN.md §8 C20", TRUST+"sha256/mtime/git capture and file_url derivation are assumed contracts; compaction order belongs to C05."),
  "C14": ("proof", "For all stores: creation with an epic id and epic reassignment are proved to require an existing, unpruned item that is an epic (two genuine defects repaired, fix: 02540a6); epics are never given an epic; the prune policy removes an epic only when every child is finished (and those children are pruned in the same batch).",
          "DESIGN.md §8 C14", TRUST+"plan and the tree builder are not yet under contract."),
  "C16": ("proof", "Ghost output counters: for claim, claim <id>, set, new task, new epic, sequence, prune, compact, show, init it is proved that a successful --json run writes exactly one JSON value and no text to stdout and a failing one at most one JSON object and no text; the create reply (id, state, title, body, epic, kind) equals the appended event.",
@@ -35,9 +39,7 @@ NA={
  "C13":"not yet claimed: needs the rely/guarantee treatment of readEvents (DESIGN.md §8 C13)",
  "C15":"not yet claimed: progress lemma over the effective waits-for relation not yet written (DESIGN.md §8 C15)",
  "C17":"not yet claimed: identity-dataflow contracts over the input paths not yet written",
- "C18":"not yet claimed: needs a ghost file-presence model for init/getEventsPath",
  "C19":"not yet claimed: structural contracts of the tree view not yet written; glyph geometry and width arithmetic are outside contract reach (go-runewidth tables)",
- "C20":"not yet claimed: the result section's dataflow is proved (evidence in C09/C10 runs) but path confinement needs a bounded stand-in and file_url needs an absolute-path contract",
 }
 hooks=subprocess.run(['git','-C','/repo','log','--format=%H %s'],capture_output=True,text=True).stdout.strip().split('\n')
 hook_commits=[l.split()[0] for l in hooks if l.split(' ',1)[1].startswith('verif:')]
